@@ -102,7 +102,7 @@ func r162(c *Ctx, r *R) {
 		return
 	}
 	n := 0
-	for _, lf := range returnLeaves(f, 0) {
+	for _, lf := range returnLeavesDeep(f, 0) {
 		if !isNilConst(lf.Val) {
 			continue
 		}
